@@ -265,3 +265,36 @@ func verifReachable(schema Schema, want S) bool {
 	vLog("unreachable-prestate", 1)
 	return false
 }
+
+// ---- schedule exploration (C04): the functions named below are instrumented with a verifSched call
+// before every statement (see symgo/instrument.go); while a preemption is pending each such point asks
+// a symbolic boolean whether the other goroutine's call runs there, as one atomic block (the running
+// goroutine must not hold a mutex: the other call could block on it).
+
+//verif:instrument pkg/machine/machine.go processQueue queueMutation PrependMut
+
+var verifPreemptFn func()
+var verifPreemptAt string
+
+func vPreempt(fn func()) {
+	verifPreemptFn = fn
+	verifPreemptAt = ""
+}
+
+func verifSched(k int, where string) {
+	if verifPreemptFn == nil {
+		return
+	}
+	b := vBool()
+	if vLocksHeld() {
+		vAssume(!b)
+		return
+	}
+	if b {
+		fn := verifPreemptFn
+		verifPreemptFn = nil
+		verifPreemptAt = where
+		vLog("preempt-at", uint64(k))
+		vJoin(fn)
+	}
+}
